@@ -69,14 +69,24 @@ func (s SessionCrypter) Decrypt(rand io.Reader, r io.Reader) ([]byte, error) {
 	var enc0 cose.Encrypt0[cbor.RawBytes, []byte]
 	switch tag.Num {
 	case cose.Encrypt0TagNum:
+		// A bare COSE_Encrypt0 is only authenticated when the cipher is an AEAD
+		if s.Cipher.MacAlg != 0 {
+			return nil, fmt.Errorf("cipher suite %s requires a COSE_Mac0 wrapper", s.ID)
+		}
 		if err := cbor.Unmarshal([]byte(tag.Val), &enc0); err != nil {
 			return nil, fmt.Errorf("error decoding COSE_Encrypt0: %w", err)
 		}
 
 	case cose.Mac0TagNum:
+		if s.Cipher.MacAlg == 0 {
+			return nil, fmt.Errorf("cipher suite %s does not use a COSE_Mac0 wrapper", s.ID)
+		}
 		var mac0 cose.Mac0[cose.Encrypt0[cbor.RawBytes, []byte], []byte]
 		if err := cbor.Unmarshal([]byte(tag.Val), &mac0); err != nil {
 			return nil, fmt.Errorf("error decoding COSE_Mac0: %w", err)
+		}
+		if mac0.Payload == nil {
+			return nil, fmt.Errorf("error decoding COSE_Mac0: no payload")
 		}
 		expectedDigest := mac0.Value
 		if err := mac0.Digest(s.Cipher.MacAlg, s.SVK, nil, nil); err != nil {
